@@ -1,5 +1,5 @@
 (* C18 — proofs about the assertion check model (models/AssertCheck.v). *)
-From Coq Require Import List NArith ZArith Bool Lia.
+From Coq Require Import List NArith ZArith Bool Lia String.
 Import ListNotations.
 Require Import V.lib.Bytes V.models.AssertCheck.
 Open Scope Z_scope.
@@ -95,13 +95,39 @@ Proof.
 Qed.
 
 Lemma can_sign_spec : forall k a, can_sign k a = true ->
-  k_constraints k = [] \/
-  exists c, In c (k_constraints k) /\ forall h v, In (h, v) c -> assoc h (a_headers a) = Some v.
+  k_constraints k = None \/
+  exists cs c, k_constraints k = Some cs /\ In c cs /\ forall h v, In (h, v) c -> assoc h (a_headers a) = Some v.
 Proof.
-  intros k a H. unfold can_sign in H. destruct (k_constraints k) as [|c0 cs] eqn:E; [left; reflexivity|].
-  right. apply existsb_exists in H as (c & Hin & Hc). exists c. split; [exact Hin|].
+  intros k a H. unfold can_sign, compile_constraints in H. destruct (k_constraints k) as [cs|] eqn:E; [|left; reflexivity].
+  right. apply existsb_exists in H as (c & Hin & Hc). exists cs, c. split; [reflexivity|]. split; [exact Hin|].
   intros h v Hhv. unfold constraint_ok in Hc. rewrite forallb_forall in Hc. specialize (Hc _ Hhv). cbn in Hc.
   destruct (assoc h (a_headers a)) as [x|]; [|discriminate]. apply beq_eq in Hc. subst x. reflexivity.
+Qed.
+
+(* a key WITH a constraints header signs only what one of the LISTED constraints matches: that constraint's type is the
+   assertion's own type and all its header pairs hold - for every constraints list, whatever types it names (an entry
+   for a type this snapd does not know matches no assertion it can hold, and is never dropped) *)
+Lemma constrained_key_needs_listed_type : forall k a cs, k_constraints k = Some cs -> can_sign k a = true ->
+  exists c, In c cs /\ (forall h v, In (h, v) c -> assoc h (a_headers a) = Some v) /\
+            (forall t, assoc (bs "type"%string) c = Some t -> assoc (bs "type"%string) (a_headers a) = Some t).
+Proof.
+  intros k a cs Hk H. destruct (can_sign_spec k a H) as [E|(cs' & c & E & Hin & Hall)]; [congruence|].
+  rewrite Hk in E. injection E as <-. exists c. split; [exact Hin|]. split; [exact Hall|].
+  intros t Ht. apply assoc_in in Ht as (k' & -> & Hin'). apply Hall, Hin'.
+Qed.
+
+(* a constraints header with no usable entry lets the key sign nothing (it is NOT the unconstrained case) *)
+Lemma empty_constraints_sign_nothing : forall k a, k_constraints k = Some [] -> can_sign k a = false.
+Proof. intros k a H. unfold can_sign, compile_constraints. rewrite H. reflexivity. Qed.
+
+(* entries whose type differs from the assertion's type contribute nothing *)
+Lemma foreign_type_constraints_sign_nothing : forall k a cs t,
+  k_constraints k = Some cs -> assoc (bs "type"%string) (a_headers a) = Some t ->
+  (forall c, In c cs -> exists t', assoc (bs "type"%string) c = Some t' /\ t' <> t) -> can_sign k a = false.
+Proof.
+  intros k a cs t Hk Ht Hall. destruct (can_sign k a) eqn:E; [|reflexivity].
+  destruct (constrained_key_needs_listed_type k a cs Hk E) as (c & Hin & _ & Hty).
+  destruct (Hall c Hin) as (t' & Hc & Hne). specialize (Hty t' Hc). congruence.
 Qed.
 
 (* ------------------------------------------------------------------ acceptance *)
